@@ -352,6 +352,11 @@ def cases_c09(types, rng, tier):
 
 # ------------------------------------------------------------------------------- runner
 
+def UNFIT_TIDS(types):
+    """declaration prefixes of the corpus types that have a node with more than 2^63 children (F5 region)"""
+    return tuple(f"T d{t['tid']} " for t in types if not enumerable([t]))
+
+
 def run_typelevel(rep, prop_id, cases_fn, rng, tier, rule, assumptions, allow_bv=False):
     all_types = T.load_corpus()
     types = enumerable(all_types)
@@ -368,7 +373,9 @@ def run_typelevel(rep, prop_id, cases_fn, rng, tier, rule, assumptions, allow_bv
         rep.violation("proof", {"theorem_or_translator": f, "property_module": f"MiniconfVerif.Props.{prop_id}"},
                       no_input=True)
     n = len(c.lines) - c.n_decl
+    hyp = hypothesis_check(rep, c.lines[:c.n_decl], expect_unfit=UNFIT_TIDS(all_types))
     rep.coverage = {
+        "hypotheses_on_corpus": hyp,
         "obligations": pl["obligations"],
         "discharged": pl["discharged"] if not pl["failures"] else min(pl["discharged"], max(pl["obligations"] - 1, 0)),
         "checker_cmd": f"cd lean && lake build MiniconfVerif.Props.{prop_id} && lake env lean MiniconfVerif/Audit/{prop_id}.lean",
